@@ -102,7 +102,7 @@ var numClasses = []struct {
 	vals  []string
 }{
 	{"small-int", []string{"0", "1", "-1", "42"}},
-	{"int-near-2^53", []string{"9007199254740991", "9007199254740992", "9007199254740993", "-9007199254740993", "9007199254740995"}},
+	{"int-near-2^53", []string{"9007199254740993", "9007199254740991", "9007199254740992", "-9007199254740993", "9007199254740995"}},
 	// (classes follow the float64 value every encoding/json path of the tool keeps)
 	{"int-below-2^63", []string{"9223372036854774784", "-9223372036854775808", "4611686018427387904", "-9223372036854775809"}},
 	{"int-2^63-to-2^64", []string{"9223372036854775808", "9223372036854775807", "9223372036854777856", "18446744073709549568"}},
